@@ -209,7 +209,7 @@ pub fn run(args: &Args) {
     let mut evaluations = 0usize;
 
     // ---- A/B: core programs, verdict against the Coq typing model
-    let n_core = if args.thorough() { 3000 } else { 350 };
+    let n_core = if args.thorough() { 1200 } else { 350 };
     for k in 0..n_core {
         let mut g = Gen { rng: &mut rng, loop_counter: 0 };
         let mut prog = g.program(2 + (k % 2) as u32, 4);
@@ -282,7 +282,7 @@ pub fn run(args: &Args) {
     }
 
     // ---- C/D: programs with procedures; line edits
-    let n_proc = if args.thorough() { 2500 } else { 300 };
+    let n_proc = if args.thorough() { 900 } else { 300 };
     for k in 0..n_proc {
         let g = PGen::new(&mut rng);
         let src = g.program(1 + (k % 3) as u32);
